@@ -25,7 +25,7 @@ def scenarios(tier: str) -> List[ConcScenario]:
     S.append(ConcScenario('tree/compute-vs-compute', hasher='samebin', capacity=40, prefill=tree, threads=[[('compute_inc', 5)], [('compute_inc', 5)]], preemptions=2, yield_loads=th))
     S.append(ConcScenario('tree/compute-vs-replace', hasher='samebin', capacity=40, prefill=tree, threads=[[('compute_inc', 5)], [('insert', 5)]], preemptions=2, yield_loads=th))
     S.append(ConcScenario('tree/compute-vs-remove-neighbour', hasher='const', capacity=40, prefill=tree, threads=[[('compute_inc', 5)], [('remove', 6)]], preemptions=2, yield_loads=th))
-    S.append(ConcScenario('tree/split-by-resize-vs-compute', hasher='split', capacity=40, prefill=tree, threads=[[('reserve', 40)], [('compute_inc', 3)]], preemptions=(2 if th else 1), yield_loads=False))
+    S.append(ConcScenario('tree/split-by-resize-vs-compute', hasher='split', capacity=40, prefill=tree, threads=[[('reserve', 40)], [('compute_inc', 3)]], preemptions=1, yield_loads=th))
     # a list bin being turned into a tree (the treeifying insert copies the nodes) while a compute updates one of them
     S.append(ConcScenario('treeify/insert-vs-compute-head', hasher='const', capacity=40, prefill=list(range(8)), threads=[[('insert', 8)], [('compute_inc', 0)]], preemptions=2, yield_loads=th))
     S.append(ConcScenario('treeify/insert-vs-compute-mid', hasher='const', capacity=40, prefill=list(range(8)), threads=[[('insert', 8)], [('compute_inc', 5)]], preemptions=2, yield_loads=th))
